@@ -334,8 +334,18 @@ func SolveVariants(files []string, timeoutS int, seed int, agree bool) SolverRes
 	}
 	_ = file
 	best := r{st: "unknown"}
+	// agree mode (thorough tier): after the first definitive answer the other solvers get a bounded extra time
+	// to confirm or contradict it (a full timeout per solver per obligation would take hours on C08)
+	var crossTimer <-chan time.Time
+loop:
 	for i := 0; i < n; i++ {
-		x := <-ch
+		var x r
+		select {
+		case x = <-ch:
+		case <-crossTimer:
+			cancel()
+			break loop
+		}
 		if prev, ok := res.All[x.name]; !ok || prev == "timeout" || prev == "unknown" {
 			res.All[x.name] = x.st
 		}
@@ -344,8 +354,9 @@ func SolveVariants(files []string, timeoutS int, seed int, agree bool) SolverRes
 				best = x
 				if !agree {
 					cancel()
-					break
+					break loop
 				}
+				crossTimer = time.After(10 * time.Second)
 			} else if best.st != x.st {
 				best = r{x.name + "+" + best.name, "disagree", x.out + "\n---\n" + best.out}
 			}
